@@ -138,6 +138,15 @@ def builder_part(chk, tier, binary):
         finds = [int(x) for x in h[1].split(",")]
         if finds != list(range(len(cols))):
             chk.violation("schema-builder:find-column", "find_column results wrong for %d columns" % len(cols), {"n": len(cols)})
+        if len(h) > 5 and h[5] != "-":
+            # the per-leaf level tables (what the writer works from) must say the same as the node accessors, for every
+            # leaf, also those recorded before the arrays grew
+            for i, (lt, (nm, t, r, l)) in enumerate(zip(h[5].split(","), cols)):
+                want = "%d/%d/%d" % (1 if r != 0 else 0, 1 if r == 2 else 0, i + 1)
+                if lt != want:
+                    chk.violation("schema-builder:leaf-table", "builder with %d columns: leaf table entry %d (def/rep/element) is %s, want %s" % (
+                        len(cols), i, lt, want), {"n": len(cols), "leaf": i})
+                    break
     chk.part("builder", sizes=sizes)
 
 
